@@ -1898,7 +1898,11 @@ class _Simu(_IObserver, _params.Updatable, ABC):
         if self.isNonLinear:
             # dofsValues = dofsValues - u
             # set incremental dof values
-            dofsValues -= self._Solver_Get_Newton_Raphson_current_solution()[dofs]
+            # a dof entered several times holds the sum of its values: subtract u once per dof
+            isFirst = np.zeros(dofs.size, dtype=bool)
+            isFirst[np.unique(dofs, return_index=True)[1]] = True
+            u = self._Solver_Get_Newton_Raphson_current_solution()[dofs]
+            dofsValues -= np.where(isFirst, u, 0.0)
 
         if algo == AlgoType.euler_explicit:
             # the solve variable is a^n: constrained DOFs have zero acceleration
